@@ -723,3 +723,140 @@ func FH() []*Program {
 		coreDecl("InitQ", [][]int{{1, 2}, {}, {}}, 0b110, 0b000, -1, 0)}})
 	return out
 }
+
+// FG is the "several goroutines that need each other" family: nr input-free providers
+// (at least two of them Async, so that at least one eg.Go goroutine exists beside the
+// calling goroutine), nm middle providers each requiring one or two earlier nodes (roots or
+// earlier middles), and a root provider requiring either the sinks only (rootAll=false) or
+// every node. Every Async subset of the middles, every Async subset of the roots with >= 2
+// members. errMode: 0 no fallible provider; 1 one program per single fallible non-root node;
+// 2 one fallible node per program, position chosen round-robin. ctxMode likewise adds a
+// context.Context parameter to one provider (0 none, 2 round-robin incl. "none").
+// stride > 1 samples every stride-th program.
+func FG(nr, nm int, errMode, ctxMode, stride int) []*Program {
+	n := 1 + nm + nr
+	// node indices: 0 root R, 1..nm middles (index nm is the first middle m_0), nm+1..nm+nr roots
+	type choice [][]int // deps per middle, in order m_0..m_{nm-1}
+	var combos []choice
+	var rec func(j int, cur choice)
+	rec = func(j int, cur choice) {
+		if j == nm {
+			c := make(choice, nm)
+			copy(c, cur)
+			combos = append(combos, c)
+			return
+		}
+		// earlier nodes: roots and middles m_0..m_{j-1}
+		var earlier []int
+		for r := 0; r < nr; r++ {
+			earlier = append(earlier, nm+1+r)
+		}
+		for q := 0; q < j; q++ {
+			earlier = append(earlier, nm-q)
+		}
+		for a := 0; a < len(earlier); a++ {
+			rec(j+1, append(cur, []int{earlier[a]}))
+			for b := a + 1; b < len(earlier); b++ {
+				rec(j+1, append(cur, []int{earlier[a], earlier[b]}))
+			}
+		}
+	}
+	rec(0, nil)
+	var out []*Program
+	cnt := 0
+	for ci, c := range combos {
+		for _, rootAll := range []bool{false, true} {
+			deps := make([][]int, n)
+			consumed := map[int]bool{}
+			for j := 0; j < nm; j++ {
+				idx := nm - j
+				deps[idx] = append([]int{}, c[j]...)
+				sortInts(deps[idx])
+				for _, d := range c[j] {
+					consumed[d] = true
+				}
+			}
+			for i := 1; i < n; i++ {
+				if rootAll || !consumed[i] {
+					deps[0] = append(deps[0], i)
+				}
+			}
+			if rootAll && len(deps[0]) == n-1-len(consumed) {
+				continue // same program as rootAll=false
+			}
+			for rmask := uint(0); rmask < 1<<uint(nr); rmask++ {
+				if bits(rmask) < 2 {
+					continue
+				}
+				for mmask := uint(0); mmask < 1<<uint(nm); mmask++ {
+					async := rmask<<uint(nm+1) | mmask<<1
+					var errsList []uint
+					switch errMode {
+					case 0:
+						errsList = []uint{0}
+					case 1:
+						for i := 1; i < n; i++ {
+							errsList = append(errsList, 1<<uint(i))
+						}
+					default:
+						errsList = []uint{1 << uint(1+cnt%(n-1))}
+					}
+					for _, errs := range errsList {
+						cnt++
+						if stride > 1 && cnt%stride != 0 {
+							continue
+						}
+						d := coreDecl("InitP", deps, async, errs, -1, 0)
+						ctxAt := -1
+						if ctxMode != 0 {
+							ctxAt = cnt%(n+1) - 1 // -1: none
+						}
+						if ctxAt >= 0 {
+							// coreDecl lists providers n-1..0
+							pr := &d.Provs[n-1-ctxAt]
+							pr.Params = append([]string{"context.Context"}, pr.Params...)
+						}
+						out = append(out, &Program{Family: "FG", Types: typeNames(n), Decls: []Decl{d},
+							Desc: fmt.Sprintf("goroutines nr=%d nm=%d combo=%d rootAll=%v async=%0*b err=%0*b ctx@%d deps=%s", nr, nm, ci, rootAll, n, async, n, errs, ctxAt, strings.ReplaceAll(fmt.Sprint(deps), " ", ","))})
+					}
+				}
+			}
+		}
+	}
+	return out
+}
+
+// FW is the wide family: k Async providers that all require one base provider (sync or
+// Async, or no base at all), and a root requiring all of them: more goroutines than any
+// other family starts (k = 5..7).
+func FW() []*Program {
+	var out []*Program
+	for k := 5; k <= 7; k++ {
+		for base := 0; base < 3; base++ { // 0 none, 1 sync base, 2 Async base
+			for _, e := range []bool{false, true} {
+				n := k + 1
+				if base > 0 {
+					n++
+				}
+				deps := make([][]int, n)
+				var async, errs uint
+				for i := 1; i <= k; i++ {
+					deps[0] = append(deps[0], i)
+					async |= 1 << uint(i)
+					if base > 0 {
+						deps[i] = []int{k + 1}
+					}
+				}
+				if base == 2 {
+					async |= 1 << uint(k+1)
+				}
+				if e {
+					errs = 1 << 2
+				}
+				out = append(out, &Program{Family: "FW", Types: typeNames(n), Decls: []Decl{coreDecl("InitP", deps, async, errs, -1, 0)},
+					Desc: fmt.Sprintf("wide k=%d base=%d err=%v", k, base, e)})
+			}
+		}
+	}
+	return out
+}
